@@ -6,14 +6,17 @@ Line protocol of C14.
 
 `hist L<0|1> A:<nil|name of the AuthNormalize function> M:<nil|description of the AuthMap table> <op>… | <row>…`
   (of the AuthMap the model only needs to know whether it is nil; the rest is for replay on the Go side)
-  ops:  `c:<u>:<p>:<b|a|s|x>`  `s:<u>:<p>`  `d:<u>`  `p:<authzid>:<u>:<p>`  `l:<u>:<p>`  `t:<u>:<p>`
+  an optional token `P:<n>` in front of the ops: the logins of this history run with runtime.GOMAXPROCS(n) (0 = unchanged)
+  ops:  `c:<u>:<p>:<spec>` spec = `b` | `b,<cost>` | `a` | `a,<time>,<memory>,<threads>` | `s` | `x` (HashOpts of the CreateUserHash call;
+        `b` = cost 4, `a` = 1,8,1)  `h:<u>:<p>:<spec>` a row computed by another implementation of the documented format is written for
+        the account (spec not `x`)  `s:<u>:<p>`  `d:<u>`  `p:<authzid>:<u>:<p>`  `l:<u>:<p>`  `t:<u>:<p>`
         (names: hex code points, passwords: hex bytes)
         overlapping logins: `B<i>:p:<authzid>:<u>:<p>` `B<i>:l:<u>:<p>` `B<i>:t:<u>:<p>` (or `G<i>:…`) login i starts and reads its row (answer `-`),
         `E<i>` login i finishes (answer: its verdict), `R<i>` scheduling hint of the harness (answer `-`)
   rows: `n:<in>:<out|!>` UsernameCaseMapped.CompareKey  `q:` UsernameCasePreserved.CompareKey  `f:` address.PRECISFold
         `g:` address.PRECIS  `w:<in>:<out>` strings.ToLower  `v:<in>:<0|1>` address.Valid  `m:<in>:<out|!>` AuthMap.Lookup
         (the AuthNormalize function named by `A:` is composed from these by the model: Model/Auth.lean `normalizeFunc`)
-  answer: one token per op — `ok` `e-algo` `e-name` `e-exists` `e-hash` | `ok=<identity>` `fail` `unsup`
+  answer: one token per op — `ok` `e-algo` `e-name` `e-exists` `e-hash` `panic` | `ok=<identity>` `fail` `unsup`
   A query that is not in the shipped tables makes the answer `MISSING` (a divergence, never a default).
 
 `skel <fact>`  answer: the expected shape of the named piece of Go source (Expect/AuthSkel.lean).
@@ -76,18 +79,33 @@ def parseKind (a : String) : Option (Option NormKind) :=
   | "A:noop" => some (some .noop)
   | _ => none
 
-def parseScheme (s : String) : Option (Option Scheme) :=
-  match s with
-  | "b" => some (some .bcrypt)
-  | "a" => some (some .argon2)
-  | "s" => some (some .sha256)
-  | "x" => some none
+def natIn (s : String) (bound : Nat) : Option Nat :=
+  match s.toNat? with
+  | some n => if n < bound then some n else none
+  | none => none
+
+/-- `<spec>` of a create / put op: scheme (`none` = unknown algorithm) and the `HashOpts` of the call. -/
+def parseSpec (s : String) : Option (Option Scheme × HashOpts) :=
+  match s.splitOn "," with
+  | ["b"] => some (some .bcrypt, {})
+  | ["b", c] => do pure (some .bcrypt, { bcryptCost := ← natIn c 2147483648 })
+  | ["a"] => some (some .argon2, {})
+  | ["a", t, m, th] => do
+    pure (some .argon2, { argonTime := ← natIn t 4294967296, argonMemory := ← natIn m 4294967296, argonThreads := ← natIn th 256 })
+  | ["s"] => some (some .sha256, {})
+  | ["x"] => some (none, {})
   | _ => none
 
-def parseOp (tok : String) : Option Op :=
+/-- the salt of the row written by the `i`-th op (any value: the verdicts do not depend on it) -/
+def parseOp (i : Nat) (tok : String) : Option COp :=
   match tok.splitOn ":" with
-  | ["c", u, p, s] => do pure (.create (← unhexRunes? u) (← unhexBytes? p) (← parseScheme s))
-  | ["s", u, p] => do pure (.setPw (← unhexRunes? u) (← unhexBytes? p))
+  | ["c", u, p, s] => do
+    let (sch, o) ← parseSpec s
+    pure (.create (← unhexRunes? u) (← unhexBytes? p) sch o [i])
+  | ["h", u, p, s] => do
+    let (sch, o) ← parseSpec s
+    pure (.put (← unhexRunes? u) (← unhexBytes? p) (← sch) o [i])
+  | ["s", u, p] => do pure (.setPw (← unhexRunes? u) (← unhexBytes? p) [i])
   | ["d", u] => do pure (.delete (← unhexRunes? u))
   | ["p", a, u, p] => do pure (.plain (← unhexRunes? a) (← unhexRunes? u) (← unhexBytes? p))
   | ["l", u, p] => do pure (.login (← unhexRunes? u) (← unhexBytes? p))
@@ -98,7 +116,7 @@ def parseId (s : String) : Option Nat := (s.drop 1).toNat?
 
 /-- `B<i>:<login op>` / `G<i>:<login op>` login i starts and reads its row (the harness then holds it at its hash
 verification / right after the read); `E<i>` it finishes; `R<i>` scheduling hint; anything else is an atomic operation. -/
-def parseEv (tok : String) : Option Ev :=
+def parseEv (idx : Nat) (tok : String) : Option CEv :=
   if tok.startsWith "B" || tok.startsWith "G" then
     match tok.splitOn ":" with
     | b :: "p" :: rest => do
@@ -111,7 +129,7 @@ def parseEv (tok : String) : Option Ev :=
     | _ => none
   else if tok.startsWith "E" then (parseId tok).map .finish
   else if tok.startsWith "R" then (parseId tok).map (fun _ => .yield)
-  else (parseOp tok).map .op
+  else (parseOp idx tok).map .op
 
 def showMgmt : MgmtRes → String
   | .ok => "ok" | .errAlgo => "e-algo" | .errName => "e-name" | .errExists => "e-exists" | .errHash => "e-hash"
@@ -124,17 +142,25 @@ def showOut : Out → String
   | .direct true => "ok"
   | .direct false => "fail"
 
-def showEvOut : EvOut → String
-  | .out o => showOut o
+def showEvOut : CEvOut → String
+  | .out (.out o) => showOut o
+  | .out .panic => "panic"
   | .begun => "-"
   | .noLogin => "no-login"
 
 def splitBar (toks : List String) : List String × List String :=
   (toks.takeWhile (· ≠ "|"), (toks.dropWhile (· ≠ "|")).drop 1)
 
-def evOp : Ev → Option Op
-  | .op o => some o
-  | .fetch _ o => some o
+/-- the names an event consults (as an abstract op on the same name) -/
+def probe : COp → Op
+  | .create u _ _ _ _ | .setPw u _ _ | .put u _ _ _ _ | .delete u => .delete u
+  | .plain a u p => .plain a u p
+  | .login u p => .login u p
+  | .direct u p => .direct u p
+
+def evOp : CEv → Option Op
+  | .op o => some (probe o)
+  | .fetch _ o => some (probe o)
   | _ => none
 
 /-- did the run consult a missing table entry?  The marker can only surface through an identity or by
@@ -153,14 +179,17 @@ def needed (c : Cfg) (vKnown : Name → Bool) (ops : List Op) : List (Option Nam
     | .plain _ u _ | .login u _ => auth u
 
 def handleHist (l a m : String) (rest : List String) : String :=
+  let (procsTok, rest) := match rest with
+    | t :: r => if t.startsWith "P:" then (t.drop 2, r) else ("0", rest)
+    | [] => ("0", rest)
   let (opToks, rowToks) := splitBar rest
-  match opToks.mapM parseEv, rowToks.foldlM parseRow ({} : Tabs), parseKind a with
-  | some evs, some tabs, some kind =>
+  match opToks.zipIdx.mapM (fun (tok, i) => parseEv i tok), rowToks.foldlM parseRow ({} : Tabs), parseKind a, procsTok.toNat? with
+  | some evs, some tabs, some kind, some procs =>
     let c : Cfg := Cfg.ofConfig (prims tabs) kind (if m == "M:nil" then none else some (look tabs.m)) (l == "L1")
     let vKnown : Name → Bool := fun u => kind != some .auto || tabs.v.any (fun p => p.1 == u)
     if (needed c vKnown (evs.filterMap evOp)).any (· == some missing) then "MISSING"
-    else " ".intercalate ((runEv c ⟨Tbl.empty, []⟩ evs).map showEvOut)
-  | _, _, _ => "bad-op"
+    else " ".intercalate ((crunEv c procs ⟨CTbl.empty, []⟩ evs).map showEvOut)
+  | _, _, _, _ => "bad-op"
 
 /-- the endpoint of the gate harness: one account `u` with password `p`, compared verbatim
 (no AuthNormalize, no AuthMap), LOGIN enabled or not. -/
